@@ -22,19 +22,31 @@ import vlib
 TOKENS = ["fn", "let", "if", "else", "self", "now", "x", "foo", "1", "2.5", "a.0.1", "\"s\"", "\"u", "// c", "/* u",
           "(", ")", "{", "}", "[", "]", ",", "=", "+", "-", "*", "|", "|>", "->", "=>", "@", "!", "`", "$", "#", "_",
           "..", ":", "::", "é", "\U0001F600", "match", "type", "use", "mod", "pub", "<", "&&", "."]
+# phrase lexicons: whole declarations as classes, so that short sequences reach texts whose declarations refer
+# to each other (modules re-exporting from one another, mutually recursive type aliases and functions, ...)
+PHRASES = {
+    "modules": ["mod a { pub use b::x }", "mod b { pub use a::x }", "mod a { pub fn x(){ 1 } }", "mod b { pub fn x(){ 2 } }",
+                "mod a { pub use a::x }", "mod a { pub use b }", "use a::x", "use b::x", "use a::*", "use a::b",
+                "fn dsp(){ a::x() }", "fn dsp(){ x() }", "fn dsp(){ b }", "pub use a::x"],
+    "types": ["type alias A = B", "type alias B = A", "type alias A = (A, float)", "type rec L = N | C(float, L)", "type A = X(B)",
+              "type B = Y(A)", "fn f(v:A){ v }", "fn g(v:B)->A{ v }", "fn dsp(){ f(1) }", "fn dsp(){ g(C(1, N)) }", "let v:A = 1"],
+    "functions": ["fn f(x){ g(x) }", "fn g(x){ f(x) }", "fn f(x){ f }", "let h = f", "let f = h", "fn dsp(){ f(1) }", "fn dsp(){ h(h) }",
+                  "fn f(x){ self(x) }", "let (p, q) = (q, p)", "fn dsp(){ dsp }"],
+}
+PHRASE_LEN = {"quick": 3, "thorough": 4}
 NEST_BOUND = 48
 BOUND = {"quick": (28, 3), "thorough": (len(TOKENS), 3)}
 APIS = ["tokenize", "parse", "analyze", "bytecode", "wasm"]
 
 
-def gen_seqs(chk, ncls, maxlen):
+def gen_seqs(chk, ncls, maxlen, label="tokens"):
     path = os.path.join(vlib.TLA_DIR, "LexGen_c04_run.cfg")
     with open(path, "w") as f:
         f.write(f"SPECIFICATION Spec\nCONSTANTS\n  NClasses = {ncls}\n  MaxLen = {maxlen}\nINVARIANT Emit\nCHECK_DEADLOCK FALSE\n")
     r = vlib.run_tlc("LexGen", "LexGen_c04_run", workers=12, timeout=3000)
     if r.violation:
         raise vlib.ToolError("LexGen: " + r.violation)
-    chk.tlc(r, f"LexGen[tokens {ncls}^<={maxlen}]")
+    chk.tlc(r, f"LexGen[{label} {ncls}^<={maxlen}]")
     return [rep["t"] for rep in r.tagged["REPLAY"]]
 
 
@@ -134,6 +146,9 @@ def run(tier):
             if len(toks) < 2 and sep:
                 continue
             texts.append(sep.join(toks))
+    for label, phrases in PHRASES.items():
+        for seq in gen_seqs(chk, len(phrases), PHRASE_LEN[tier], label):
+            texts.append("\n".join(phrases[c - 1] for c in seq) + "\n")
     nexh = len(texts)
     texts += corpus(rng, tier)
     pins = {}
